@@ -601,13 +601,25 @@ func (f *ccmFam) Gen(r *hx.Run) {
 		hx32 := sha256.Sum256(x)
 		idFamily := [][]byte{x, hx32[:], append([]byte{}, x[:32]...), append(append([]byte{}, x...), 0), {}, rng.Bytes(1), rng.Bytes(31), rng.Bytes(32)}
 		useFamily := rng.Bool()
+		// every fourth case: a large message (ToMerkleValue above 4 KiB / above 64 KiB) executed through the eth router and
+		// immediately followed by a small executed import (buffers reused between imports must not leak content)
+		bigCase := c%4 == 1
+		bigArgs := []int{5000, 5000, 70000}[rng.Intn(3)]
 		var pool []*msg
 		for i := 0; i < 4; i++ {
 			to := universe[rng.Intn(len(universe))]
+			if bigCase && i < 2 {
+				to = universe[0]
+			}
 			p := scom.MakeTxParam{TxHash: rng.Bytes(1 + rng.Intn(32)), CrossChainID: rng.Bytes([]int{0, 1, 8, 32, 33}[rng.Intn(5)]),
 				FromContractAddress: rng.Bytes(rng.Intn(21)), ToChainID: to, ToContractAddress: rng.Bytes(rng.Intn(21)),
 				Method: []string{"unlock", "", "a"}[rng.Intn(3)], Args: rng.Bytes([]int{0, 3, 60, 253, 300}[rng.Intn(5)])}
-			if useFamily {
+			if bigCase && i == 0 {
+				p.Args = rng.Bytes(bigArgs)
+			}
+			if bigCase && i < 2 {
+				p.CrossChainID = append([]byte{byte(i), 0xb1}, rng.Bytes(8)...)
+			} else if useFamily {
 				p.CrossChainID = idFamily[i] // x, sha256(x), x[:32], x‖00: four different messages
 			} else if i > 0 && rng.Chance(1, 3) { // same cross-chain id as an earlier message, different content
 				p.CrossChainID = pool[rng.Intn(len(pool))].p.CrossChainID
@@ -658,6 +670,30 @@ func (f *ccmFam) Gen(r *hx.Run) {
 		for _, u := range universe {
 			if rng.Chance(3, 4) {
 				regOne(u)
+			}
+		}
+		if bigCase {
+			// destination universe[0] on the vote router, source universe[1] on the eth router with the synthetic state
+			r.Do(fmt.Sprintf("reg %d 0", universe[0]))
+			chainRouter[universe[0]] = 0
+			if !ethSetup[universe[1]] {
+				chainRouter[universe[1]] = 2
+				r.Do(fmt.Sprintf("reg %d 2", universe[1]))
+				var ms []string
+				for _, m := range pool {
+					ms = append(ms, hx.Hex(m.raw))
+				}
+				nonce++
+				if r.Do(fmt.Sprintf("ethsetup n=%d chain=%d m=%s", nonce, universe[1], strings.Join(ms, ","))) == "ok" {
+					ethSetup[universe[1]] = true
+				}
+			}
+			if es := f.eth[universe[1]]; es != nil && ethSetup[universe[1]] {
+				for _, m := range []*msg{pool[0], pool[1], pool[0]} { // big, small, big again (rejected: done)
+					nonce++
+					res := r.Do(f.importOp(nonce, "0", "0", universe[1], ethGenesisHeight, es.proofs[hex.EncodeToString(m.raw)], nil, m, 1))
+					r.Nontrivial(fmt.Sprintf("big/%d/%s", len(m.p.Args), strings.Fields(res)[0]))
+				}
 			}
 		}
 		type campaign struct {
